@@ -1,8 +1,8 @@
 #!/usr/bin/env python3
-def cfg(name, inst="{a, b}", sh="{1}", claims=2, dup=0, snap=0, leave="FALSE", release="FALSE", tsfix="TRUE", invs="SingleNewestOwner", depth=None):
+def cfg(name, inst="{a, b}", sh="{1}", claims=2, dup=0, snap=0, leave="FALSE", release="FALSE", tsfix="TRUE", invs="SingleNewestOwner", depth=None, late="{}", needknown="FALSE"):
     out = "INIT SimInit\nNEXT SimNext\n" if depth else "SPECIFICATION Spec\n"
-    out += "CONSTANTS\n  Inst = %s\n  Sh = %s\n  MaxClaims = %d\n  MaxDup = %d\n  MaxSnap = %d\n  AllowLeave = %s\n  AllowRelease = %s\n  TsFix = %s\n" % (
-        inst, sh, claims, dup, snap, leave, release, tsfix)
+    out += "CONSTANTS\n  Inst = %s\n  Sh = %s\n  MaxClaims = %d\n  MaxDup = %d\n  MaxSnap = %d\n  AllowLeave = %s\n  AllowRelease = %s\n  TsFix = %s\n  Late = %s\n  NeedKnown = %s\n" % (
+        inst, sh, claims, dup, snap, leave, release, tsfix, late, needknown)
     if depth:
         out += "  Depth = %d\n" % depth
     else:
@@ -19,3 +19,9 @@ cfg("g_fix2_t", claims=4, dup=1, release="TRUE")
 cfg("g_fix3_t", inst="{a, b, c}", claims=3, dup=1, release="TRUE")
 cfg("sim_g", inst="{a, b, c}", sh="{1, 2}", claims=4, dup=2, snap=2, leave="TRUE", release="TRUE", depth=22)
 cfg("sim_g2", inst="{a, b}", sh="{1}", claims=3, dup=1, snap=2, leave="TRUE", release="TRUE", depth=16)
+# an instance joins late: its announcements reach members that have not merged its state yet
+cfg("g_join2", claims=3, dup=1, snap=1, release="TRUE", late="{a}")
+cfg("g_join3", inst="{a, b, c}", claims=3, dup=0, snap=0, late="{a}")
+cfg("sim_gj", inst="{a, b}", sh="{1}", claims=3, dup=1, snap=1, leave="FALSE", release="TRUE", depth=16, late="{a}")
+cfg("sim_gj3", inst="{a, b, c}", sh="{1, 2}", claims=4, dup=1, snap=1, leave="FALSE", release="TRUE", depth=22, late="{a}")
+cfg("g_join2_needknown", claims=3, dup=1, snap=1, release="TRUE", late="{a}", needknown="TRUE")   # expected to violate
